@@ -44,11 +44,41 @@ def CState.dict (s : CState) (d : Nat) : Index := (s.heap[d]?).getD []
 /-- what a sequential observer sees -/
 def CState.toState (s : CState) : State := ⟨s.cache, s.dict s.ref, s.sysModules⟩
 
+/-- how a lookup post-processes the list `find_types` returns -/
+inductive Look
+  /-- `find_types(q)` -/
+  | types
+  /-- `find_type(q)`: `types[-1] if types else None` -/
+  | last
+  /-- `find_subclass(c, q)` -/
+  | sub (c : ClassId)
+  deriving DecidableEq, Repr
+
+def Look.out (U : Universe) : Look → List ClassId → Out
+  | .types, l => .gotTypes l
+  | .last, l => .gotType l.getLast?
+  | .sub c, l => .gotType (pickSubclass U c l)
+
+/-- the answer for an empty list -/
+def Look.empty : Look → Out
+  | .types => .gotTypes []
+  | .last => .gotType none
+  | .sub _ => .gotType none
+
 /-- what a thread was asked to do -/
 inductive Prog
   | build (c : ClassId) (pns : Option Str)
-  | findTypes (q : Str)
+  /-- `find_types` / `find_type` / `find_subclass` -/
+  | lookup (k : Look) (q : Str)
+  /-- `find_type_by_fields(names)` -/
+  | scan (names : List Str)
   | reset
+  deriving DecidableEq, Repr
+
+/-- what the thread does once the index is current -/
+inductive Goal
+  | lookup (k : Look) (q : Str)
+  | scan (names : List Str)
   deriving DecidableEq, Repr
 
 inductive TState
@@ -59,17 +89,21 @@ inductive TState
   /-- `return self.cache[clazz]` -/
   | bRead (c : ClassId)
   /-- `if len(sys.modules) == self.sys_modules: return` -/
-  | xCheck (q : Str)
+  | xCheck (g : Goal)
   /-- thread-local: the next binding class of `todo` goes into the local index `acc` -/
-  | xLocal (q : Str) (todo : List ClassId) (acc : Index)
+  | xLocal (g : Goal) (todo : List ClassId) (acc : Index)
   /-- `self.xsi_cache = xsi_cache` -/
-  | xPublish (q : Str) (acc : Index)
+  | xPublish (g : Goal) (acc : Index)
   /-- `self.sys_modules = sys_modules` -/
-  | xStamp (q : Str)
+  | xStamp (g : Goal)
   /-- `if qname in self.xsi_cache`, the reference already read: object `d` -/
-  | xContains (q : Str) (d : Nat)
+  | xContains (k : Look) (q : Str) (d : Nat)
   /-- `return self.xsi_cache[qname]` on object `d` (a `defaultdict`: a missing key is inserted) -/
-  | xGet (q : Str) (d : Nat)
+  | xGet (k : Look) (q : Str) (d : Nat)
+  /-- `find_type_by_fields`: about to call `next()` on the `values()` iterator of
+  dict object `d`, created when the dict had `n0` entries; `todo` = keys of the
+  entries not yet visited, `acc` = the choices collected so far -/
+  | sScan (names : List Str) (d : Nat) (todo : List Str) (n0 : Nat) (acc : List Choice)
   /-- `self.cache.clear()` -/
   | rCache
   /-- `self.xsi_cache.clear()` on object `d` -/
@@ -82,7 +116,8 @@ inductive TState
 /-- the state after the thread ran up to its first shared operation -/
 def Prog.start : Prog → TState
   | .build c p => .bCheck c p
-  | .findTypes q => if isDataType q then .done (.gotTypes []) else .xCheck q
+  | .lookup k q => if isDataType q then .done k.empty else .xCheck (.lookup k q)
+  | .scan names => .xCheck (.scan names)
   | .reset => .rCache
 
 /-- the binding models `build_xsi_cache` visits, in `get_subclasses(object)` order -/
@@ -94,10 +129,21 @@ def localAdd (U : Universe) (acc : Index) (c : ClassId) : Index :=
   | some k => dictAppend acc k c
   | none => acc
 
-def afterLocal (q : Str) (todo : List ClassId) (acc : Index) : TState :=
+def afterLocal (g : Goal) (todo : List ClassId) (acc : Index) : TState :=
   match todo with
-  | [] => .xPublish q acc
-  | _ => .xLocal q todo acc
+  | [] => .xPublish g acc
+  | _ => .xLocal g todo acc
+
+/-- `build_xsi_cache()` has returned: read the reference and go on -/
+def Goal.enter (s : CState) : Goal → TState
+  | .lookup k q => .xContains k q s.ref
+  | .scan names => .sScan names s.ref ((s.dict s.ref).map (·.1)) (s.dict s.ref).length []
+
+/-- write back what the (sequential) body of one scan step did to the cache and
+to the published dict object -/
+def CState.absorb (s : CState) (st : State) : CState :=
+  if st.xsi = s.dict s.ref then { s with cache := st.cache }
+  else { s with cache := st.cache, heap := s.heap.set s.ref st.xsi }
 
 /-- perform the pending operation, then run to the next one -/
 def stepT (U : Universe) (w : World) (s : CState) : TState → CState × TState
@@ -113,21 +159,34 @@ def stepT (U : Universe) (w : World) (s : CState) : TState → CState × TState
     match s.cache.lookup c with
     | some m => (s, .done (.gotMeta m))
     | none => (s, .done (.raised .index))
-  | .xCheck q =>
-    if w.mods + 1 = s.sysModules then (s, .xContains q s.ref)
-    else (s, afterLocal q (bindingClasses U w.loaded) [])
-  | .xLocal q [] acc => (s, .xPublish q acc)
-  | .xLocal q (c :: rest) acc => (s, afterLocal q rest (localAdd U acc c))
-  | .xPublish q acc => ({ s with heap := s.heap ++ [acc], ref := s.heap.length }, .xStamp q)
-  | .xStamp q => ({ s with sysModules := w.mods + 1 }, .xContains q s.ref)
-  | .xContains q d =>
+  | .xCheck g =>
+    if w.mods + 1 = s.sysModules then (s, g.enter s)
+    else (s, afterLocal g (bindingClasses U w.loaded) [])
+  | .xLocal g [] acc => (s, .xPublish g acc)
+  | .xLocal g (c :: rest) acc => (s, afterLocal g rest (localAdd U acc c))
+  | .xPublish g acc => ({ s with heap := s.heap ++ [acc], ref := s.heap.length }, .xStamp g)
+  | .xStamp g =>
+    ({ s with sysModules := w.mods + 1 }, g.enter { s with sysModules := w.mods + 1 })
+  | .xContains k q d =>
     match (s.dict d).lookup q with
-    | some _ => (s, .xGet q s.ref)
-    | none => (s, .done (.gotTypes []))
-  | .xGet q d =>
+    | some _ => (s, .xGet k q s.ref)
+    | none => (s, .done (k.out U []))
+  | .xGet k q d =>
     match (s.dict d).lookup q with
-    | some l => (s, .done (.gotTypes l))
-    | none => ({ s with heap := s.heap.set d (s.dict d ++ [(q, [])]) }, .done (.gotTypes []))
+    | some l => (s, .done (k.out U l))
+    | none => ({ s with heap := s.heap.set d (s.dict d ++ [(q, [])]) }, .done (k.out U []))
+  | .sScan names d todo n0 acc =>
+    -- `next(iterator)`: "dictionary changed size during iteration"
+    if (s.dict d).length ≠ n0 then (s, .done (.raised .runtime))
+    else
+      match todo with
+      | [] => (s, .done (.gotType ((bestChoice acc).map (·.1))))
+      | k :: rest =>
+        -- `for clazz in tuple(types) if self.local_names_match(...)`: the builds and
+        -- evictions of one visited entry, as in the sequential model
+        match scanTypes U names (((s.dict d).lookup k).getD []) s.toState acc with
+        | (st', .error e) => (s.absorb st', .done (.raised e))
+        | (st', .ok acc') => (s.absorb st', .sScan names d rest n0 acc')
   | .rCache => ({ s with cache := [] }, .rXsi s.ref)
   | .rXsi d => ({ s with heap := s.heap.set d [] }, .rStamp)
   | .rStamp => ({ s with sysModules := 0 }, .done .done)
@@ -171,8 +230,9 @@ def TState.isX : TState → Bool
   | .xLocal _ _ _ => true
   | .xPublish _ _ => true
   | .xStamp _ => true
-  | .xContains _ _ => true
-  | .xGet _ _ => true
+  | .xContains _ _ _ => true
+  | .xGet _ _ _ => true
+  | .sScan _ _ _ _ _ => true
   | _ => false
 
 /-- the thread is inside `reset` -/
@@ -187,17 +247,19 @@ def TState.isDone : TState → Bool
   | _ => false
 
 /-- an upper bound on the number of steps the thread still has to perform
-(`n` = number of binding classes a rebuild visits) -/
-def TState.remaining (n : Nat) : TState → Nat
+(`n` = number of binding classes a rebuild visits, `m` = a bound on the number
+of entries of any published dict) -/
+def TState.remaining (n m : Nat) : TState → Nat
   | .bCheck _ _ => 3
   | .bWrite _ _ => 2
   | .bRead _ => 1
-  | .xCheck _ => n + 6
-  | .xLocal _ todo _ => todo.length + 5
-  | .xPublish _ _ => 4
-  | .xStamp _ => 3
-  | .xContains _ _ => 2
-  | .xGet _ _ => 1
+  | .xCheck _ => n + 6 + m
+  | .xLocal _ todo _ => todo.length + 5 + m
+  | .xPublish _ _ => 4 + m
+  | .xStamp _ => 3 + m
+  | .xContains _ _ _ => 2
+  | .xGet _ _ _ => 1
+  | .sScan _ _ todo _ _ => todo.length + 1
   | .rCache => 3
   | .rXsi _ => 2
   | .rStamp => 1
@@ -213,7 +275,8 @@ def drainThread (U : Universe) (w : World) (i : Nat) : Nat → Sys → Sys
 
 def drain (U : Universe) (w : World) (sys : Sys) : Sys :=
   (List.range sys.threads.length).foldl
-    (fun acc i => drainThread U w i ((bindingClasses U w.loaded).length + 8) acc) sys
+    (fun acc i => drainThread U w i
+      ((bindingClasses U w.loaded).length + (acc.shared.heap.map List.length).sum + 10) acc) sys
 
 def Sys.results (sys : Sys) : List (Option Out) :=
   sys.threads.map fun th =>
@@ -227,6 +290,29 @@ def progUses : List Prog → List Use
   | .build c p :: rest => (c, p) :: progUses rest
   | _ :: rest => progUses rest
 
+/-- the requests of build *and* scan threads (a scan builds every indexed class
+with `parent_ns=None`) -/
+def progUsesAll (U : Universe) (w : World) : List Prog → List Use
+  | [] => []
+  | .build c p :: rest => (c, p) :: progUsesAll U w rest
+  | .scan _ :: rest =>
+    ((indexedClasses (pureIndex U w.loaded)).map fun c => (c, none)) ++ progUsesAll U w rest
+  | _ :: rest => progUsesAll U w rest
+
+/-- no thread runs `find_type_by_fields` -/
+def noScan (progs : List Prog) : Prop := ∀ p ∈ progs, ∀ names, p ≠ Prog.scan names
+
+def Prog.isScan : Prog → Bool
+  | .scan _ => true
+  | _ => false
+
+instance (progs : List Prog) : Decidable (noScan progs) :=
+  decidable_of_iff (∀ p ∈ progs, p.isScan = false) (by
+    constructor
+    · intro h p hp names e; subst e; simpa [Prog.isScan] using h _ hp
+    · intro h p hp
+      cases p <;> first | rfl | exact absurd rfl (h _ hp _))
+
 /-- no thread calls `reset()` -/
 def noReset (progs : List Prog) : Prop := ∀ p ∈ progs, p ≠ Prog.reset
 
@@ -236,7 +322,8 @@ instance (progs : List Prog) : Decidable (noReset progs) :=
 /-- what the thread returns when it runs alone on a fresh context -/
 def Prog.alone (U : Universe) (w : World) : Prog → Out
   | .build c p => outMeta (pureBuild U c p)
-  | .findTypes q => .gotTypes (pureTypes U w q)
+  | .lookup k q => k.out U (pureTypes U w q)
+  | .scan names => .gotType (pureFields U w names)
   | .reset => .done
 
 end Xs.Ctx
